@@ -1,11 +1,18 @@
 ENGINES = [
-    {"name": "gosched", "path": "vrt/ explore/ instr/", "serves_properties": ["C04"],
+    {"name": "gosched", "path": "vrt/ explore/ instr/", "serves_properties": ["C03", "C04"],
      "kind_free_text": "stateless model checker for Go: AST instrumenter rewrites go/chan/select/sync/atomic/time/context onto a cooperative scheduler (vrt); explorer does DFS over schedules and environment choices with iterative preemption bounding, work-splitting over worker processes, replay files"},
 ]
 NOTES = "All checks rebuild from /repo's working tree through bin/prepare (instrument + overlay); exit 2 = engine/build error (never a verdict)."
 NOT_APPLICABLE = {}
 A_NOTE = "Trusted: the vrt shims model Go's mutex/cond/channel/select/timer semantics faithfully (self-tests + repository tests pass on the instrumented build in passthrough mode); sequential consistency; scheduling points before acquire-type operations only; data races are left to a separate -race pass."
 CHECKS = {
+    "C03": {
+        "engine": "gosched",
+        "technique": "stateless model checking of the real lifecycle helpers under a controlled scheduler (iterative preemption bounding; exact quiescence); commit-log and modelled-watch-event oracles",
+        "text": "Every schedule (preemption bound 2 for pairs, 1 for triples; thorough: unbounded pairs, bound 2 triples) of 2-3 actors drawn from TeardownAndDestroy/Teardown/Destroy/finalizer add+remove/re-create/WatchFor(3 conditions)/ContextWithTeardown on one resource from 4 initial states runs on the real wrap.go + inmem code; oracles S1 (no destroy with finalizers), S2 (ready flag), S3 (success => destroy committed during the call), L1 (no missed wake-up: blocked at exact quiescence only while finalizers remain), W1 (WatchFor returns the first matching event of the modelled sequence for some establishment point in the recorded window, never blocked past a match), X1/X2 (teardown context cancelled iff torn down/absent), and cancellation unblocks every helper.",
+        "design_ref": "DESIGN.md 3/C03",
+        "note": A_NOTE,
+    },
     "C04": {
         "engine": "gosched",
         "technique": "stateless model checking of the real helpers under a controlled scheduler (all schedules of 2 callers unbounded; 3 callers up to 2 preemptions); commit-log refinement oracle",
